@@ -65,6 +65,9 @@ def gen_case(rng: random.Random, tier: str):
                 v = gen.gen_value(rng, defs, p)
                 if v is not None:
                     ops.append({"op": "set", "path": p["path"], "val": v})
+                    if len(p["path"]) == 1 and rng.random() < 0.15:
+                        # the same assignment on a shallow COPY of the union (copy.copy): the original must not follow
+                        ops[-1]["on_copy"] = True
         elif r < 0.88:
             ops.append({"op": "dumps"})
         else:
@@ -378,6 +381,18 @@ def run_case(case, stats):
             if len(enc) != ft.size:
                 continue
             parent = u
+            if op.get("on_copy") and len(op["path"]) == 1 and op["path"][0] in {f_._name for f_ in U.__fields__} and holder is None:
+                import copy as _copy
+
+                try:
+                    twin = _copy.copy(u)
+                    setattr(twin, op["path"][0], val)
+                except Exception as ex:  # noqa: BLE001
+                    raise Violation("assign", "raised_" + type(ex).__name__, f"{label}: assignment on copy.copy(u) raised {type(ex).__name__}: {ex}")
+                stats.count("probe.assignment_on_shallow_copy")
+                check(label + " (assigned on a shallow copy: the original keeps its bytes)")
+                check_dumps(label + " (assigned on a shallow copy)")
+                continue
             try:
                 for name in op["path"][:-1]:
                     parent = getattr(parent, name)
